@@ -1,11 +1,18 @@
 // native replay for the tensor.h part of C16, built WITH assertions (no NDEBUG): runs the real tensor_t::slice on a
 // concrete shape and range and compares the view with the reference (offset begin * P_1, dims (end - begin, dims[1..])).
 // usage: C16_tensor_replay slice <rank> <d0..> <begin> <end>
+//        C16_tensor_replay selfview <const|mut> <size> <begin> <end>   owning = (constant) mapping view OF ITSELF:
+//            t = std::as_const(t).slice(begin, end) / t = t.slice(begin, end) must leave exactly the old elements [begin, end)
+//            (build with -fsanitize=address: a read of the released buffer aborts)
+//        C16_tensor_replay integral8 <v0> <v1> ..     int8 -> int64 summed-area table of one row against the naive prefix sums
+//        C16_tensor_replay gather                     index gather into a RE-USED owning buffer of equal element count but other shape
 // exit 0: view as specified; 1: view differs; an assertion of the library aborts the process (reported by the caller)
+#include <nano/tensor/integral.h>
 #include <nano/tensor/tensor.h>
 #include <cstdio>
 #include <cstdlib>
 #include <cstring>
+#include <utility>
 using namespace nano;
 template <size_t R>
 static int run_slice(char** argv)
@@ -24,8 +31,58 @@ static int run_slice(char** argv)
     std::printf("\"offset\": %lld, \"rows\": %lld, \"ok\": %s}\n", (long long)(s.data() - t.data()), (long long)s.template size<0>(), ok ? "true" : "false");
     return ok ? 0 : 1;
 }
+static int run_selfview(char** argv)
+{
+    const bool          cst = std::strcmp(argv[2], "const") == 0;
+    const tensor_size_t n = std::atoll(argv[3]), b = std::atoll(argv[4]), e = std::atoll(argv[5]);
+    tensor_mem_t<double, 1> t(n);
+    for (tensor_size_t k = 0; k < n; ++k) t(k) = static_cast<double>(k + 1);
+    if (cst) { t = std::as_const(t).slice(b, e); } else { t = t.slice(b, e); }
+    bool ok = t.size() == e - b;
+    tensor_size_t bad = -1;
+    for (tensor_size_t k = 0; ok && k < e - b; ++k)
+        if (t(k) != static_cast<double>(b + k + 1)) { ok = false; bad = k; }
+    std::printf("{\"size\": %lld, \"begin\": %lld, \"end\": %lld, \"result_size\": %lld, \"first_wrong_element\": %lld, \"ok\": %s}\n", (long long)n,
+                (long long)b, (long long)e, (long long)t.size(), (long long)bad, ok ? "true" : "false");
+    return ok ? 0 : 1;
+}
+static int run_integral8(int argc, char** argv)
+{
+    const tensor_size_t n = argc - 2;
+    tensor_mem_t<int8_t, 1>  in(n);
+    tensor_mem_t<int64_t, 1> out(n);
+    for (tensor_size_t k = 0; k < n; ++k) in(k) = static_cast<int8_t>(std::atoi(argv[2 + k]));
+    integral(in, out);
+    int64_t sum = 0;
+    for (tensor_size_t k = 0; k < n; ++k)
+    {
+        sum += in(k);
+        if (out(k) != sum)
+        {
+            std::printf("{\"position\": %lld, \"integral\": %lld, \"naive_prefix_sum\": %lld, \"ok\": false}\n", (long long)k, (long long)out(k), (long long)sum);
+            return 1;
+        }
+    }
+    std::printf("{\"ok\": true}\n");
+    return 0;
+}
+static int run_gather()
+{
+    tensor_mem_t<double, 2> a(6, 2), b(6, 4), buffer;
+    for (tensor_size_t k = 0; k < a.size(); ++k) a(k) = static_cast<double>(k);
+    for (tensor_size_t k = 0; k < b.size(); ++k) b(k) = static_cast<double>(100 + k);
+    a.indexed(make_indices(1, 4), buffer); // 2 x 2
+    b.indexed(make_indices(3), buffer);    // must become 1 x 4: row 3 of b
+    bool ok = buffer.size<0>() == 1 && buffer.size<1>() == 4;
+    for (tensor_size_t c = 0; ok && c < 4; ++c) ok = buffer(0, c) == b(3, c);
+    std::printf("{\"rows\": %lld, \"cols\": %lld, \"expected\": \"1x4 (row 3)\", \"ok\": %s}\n", (long long)buffer.size<0>(), (long long)buffer.size<1>(), ok ? "true" : "false");
+    return ok ? 0 : 1;
+}
 int main(int argc, char** argv)
 {
+    if (argc >= 3 && std::strcmp(argv[1], "integral8") == 0) return run_integral8(argc, argv);
+    if (argc == 2 && std::strcmp(argv[1], "gather") == 0) return run_gather();
+    if (argc == 6 && std::strcmp(argv[1], "selfview") == 0) return run_selfview(argv);
     if (argc < 3 || std::strcmp(argv[1], "slice") != 0) return 2;
     const int R = std::atoi(argv[2]);
     if (argc != 5 + R) return 2;
